@@ -41,6 +41,8 @@ class StubScenario:
         self.fi = repo.fn(module, func)
         self.extra_hook = call_hook
         inl = {f"{ST}.{x}" for x in inline} | {"monkeytype.typing.make_iterator", "monkeytype.typing.make_generator"}
+        # private module-level helpers of stubs.py (an extracted piece of a public function) are interpreted with it
+        inl |= {f.fq for f in repo.module(ST).functions.values() if f.cls is None and f.qualname.startswith("_")}
         self.ri = RepoInterp(repo, self.fi, inline=inl, call_hook=self.call_hook, may_fork=(), heap=True, max_depth=16)
         self.ri.on_attr = self.on_attr  # type: ignore[method-assign]
         self.ri.interp.on_attr = self.on_attr
